@@ -61,7 +61,7 @@ func appendIntNotEmptyAsString(fi *finfo, buf []byte, rv reflect.Value, addr uin
 
 func iappendInt(fi *finfo, buf []byte, rv reflect.Value, addr uintptr, safe bool) ([]byte, any, appendStatus) {
 	buf = append(buf, fi.jkey...)
-	buf = strconv.AppendInt(buf, int64(rv.FieldByIndex(fi.index).Interface().(int)), 10)
+	buf = strconv.AppendInt(buf, int64(int(rv.FieldByIndex(fi.index).Int())), 10)
 
 	return buf, nil, aWrote
 }
@@ -69,14 +69,14 @@ func iappendInt(fi *finfo, buf []byte, rv reflect.Value, addr uintptr, safe bool
 func iappendIntAsString(fi *finfo, buf []byte, rv reflect.Value, addr uintptr, safe bool) ([]byte, any, appendStatus) {
 	buf = append(buf, fi.jkey...)
 	buf = append(buf, '"')
-	buf = strconv.AppendInt(buf, int64(rv.FieldByIndex(fi.index).Interface().(int)), 10)
+	buf = strconv.AppendInt(buf, int64(int(rv.FieldByIndex(fi.index).Int())), 10)
 	buf = append(buf, '"')
 
 	return buf, nil, aWrote
 }
 
 func iappendIntNotEmpty(fi *finfo, buf []byte, rv reflect.Value, addr uintptr, safe bool) ([]byte, any, appendStatus) {
-	v := rv.FieldByIndex(fi.index).Interface().(int)
+	v := int(rv.FieldByIndex(fi.index).Int())
 	if v == 0 {
 		return buf, nil, aSkip
 	}
@@ -87,7 +87,7 @@ func iappendIntNotEmpty(fi *finfo, buf []byte, rv reflect.Value, addr uintptr, s
 }
 
 func iappendIntNotEmptyAsString(fi *finfo, buf []byte, rv reflect.Value, addr uintptr, safe bool) ([]byte, any, appendStatus) {
-	v := rv.FieldByIndex(fi.index).Interface().(int)
+	v := int(rv.FieldByIndex(fi.index).Int())
 	if v == 0 {
 		return buf, nil, aSkip
 	}
